@@ -161,9 +161,10 @@ pub fn run(spec: &crate::Spec) -> Report {
     let mut rep = Report::new(&spec.raw);
     let scn = scenario(spec);
     let b = Bounds {
-        preemptions: spec.opt_usize("P").unwrap_or(usize::MAX),
+        preemptions: spec.opt_usize("D").or(spec.opt_usize("P")).unwrap_or(usize::MAX),
         deviations: 0,
         max_execs: spec.usize("max", 1_000_000) as u64,
+        delay: spec.opt_usize("D").is_some(),
     };
     explore::check(&mut rep, &scn, b, &spec.raw);
     rep.extra("preemption_bound_completed", if b.preemptions == usize::MAX { 99 } else { b.preemptions });
